@@ -12,7 +12,11 @@ KeyForms == {<<107>>, <<34, 107, 34>>, <<39, 107, 39>>, <<34, 92, 117, 48, 48, 5
 Vals == {<<49>>, <<34, 233, 128512, 34>>, <<39, 39, 39, 10, 233, 39, 39, 39>>, <<49, 46, 53>>, <<116, 114, 117, 101>>,
          <<50, 48, 48, 48, 45, 48, 49, 45, 48, 49>>, <<91, 49, 44, 32, 34, 233, 34, 44, 32, 91, 50, 93, 44, 32, 123, 120, 32, 61, 32, 49, 125, 32, 93>>,
          <<91, 93>>, <<123, 125>>, <<123, 32, 98, 32, 61, 32, 49, 44, 32, 34, 233, 34, 46, 100, 32, 61, 32, 50, 32, 125>>,
-         <<91, 10, 32, 49, 44, 32, 35, 32, 233, 10, 32, 50, 44, 10, 93>>}
+         <<91, 10, 32, 49, 44, 32, 35, 32, 233, 10, 32, 50, 44, 10, 93>>,
+         \* unit-variant names for enum targets: "a", "zz", ["a", "b"], ["a", "zz", "b"], [["a", 1], ["zz", 2]]
+         <<34, 97, 34>>, <<34, 122, 122, 34>>, <<91, 34, 97, 34, 44, 32, 34, 98, 34, 93>>,
+         <<91, 34, 97, 34, 44, 10, 32, 32, 34, 122, 122, 34, 44, 32, 34, 98, 34, 93>>,
+         <<91, 91, 34, 97, 34, 44, 32, 49, 93, 44, 32, 91, 39, 122, 122, 39, 44, 32, 50, 93, 93>>}
 Bodies ==
   {kf \o <<32, 61, 32>> \o v \o nl : kf \in KeyForms, v \in Vals, nl \in NL}
   \cup {kf \o <<46, 98, 32, 61, 32>> \o v \o nl : kf \in KeyForms, v \in {<<49>>, <<34, 233, 34>>}, nl \in NL}
